@@ -41,25 +41,88 @@ func checkC06(c *Ctx) {
 	}
 	// ---------------- R1
 	var pick, healthy, dial *ssa.Call
+	var picks, dials []*ssa.Call
 	eachInstr(hc, func(_ *ssa.BasicBlock, _ int, in ssa.Instruction) {
 		call, ok := in.(*ssa.Call)
 		if !ok {
 			return
 		}
 		if call.Call.IsInvoke() && call.Call.Method.Name() == "PickHost" {
-			pick = call
+			if pick == nil {
+				pick = call
+			}
+			picks = append(picks, call)
 		}
 		if isMethodCall(call, modPath+"/host", "Set", "Healthy") {
 			healthy = call
 		}
 		if g := calleeFn(call.Common()); g != nil && g.Name() == "dial" {
-			dial = call
+			if dial == nil {
+				dial = call
+			}
+			dials = append(dials, call)
 		}
 	})
+	// isPicked: the value is the result of a PickHost call, or a variable that is only ever assigned such results
+	isPicked := func(v ssa.Value) bool {
+		v = stripConv(v)
+		for _, pk := range picks {
+			if v == ssa.Value(pk) {
+				return true
+			}
+		}
+		cell := v
+		if u, ok := v.(*ssa.UnOp); ok && u.Op == token.MUL {
+			cell = cellKey(v)
+		}
+		al, ok := cell.(*ssa.Alloc)
+		if !ok {
+			return false
+		}
+		n := 0
+		for _, r := range *al.Referrers() {
+			st, isSt := r.(*ssa.Store)
+			if !isSt || st.Addr != ssa.Value(al) {
+				continue
+			}
+			n++
+			okv := false
+			for _, pk := range picks {
+				if stripConv(st.Val) == ssa.Value(pk) {
+					okv = true
+				}
+			}
+			if !okv {
+				return false
+			}
+		}
+		return n > 0
+	}
 	if pick == nil || healthy == nil || dial == nil {
 		c.Fail("R1", "handler shape", hc.Pos(), "the TCP handler does not take the healthy snapshot, pick a host and dial it")
 	} else {
-		c.Check(pick.Call.Args[0] == ssa.Value(healthy), "R1", "PickHost argument", pick.Pos(), "PickHost(hostSet.Healthy())", "the balancer is not given the usable-host snapshot (it can select removed or unhealthy hosts)")
+		okArg := true
+		for _, pk := range picks {
+			a := pk.Call.Args[0]
+			if a == ssa.Value(healthy) {
+				continue
+			}
+			// a candidate list derived from the snapshot by a module helper (a filter)
+			fromSnap := false
+			if hc2, ok := a.(*ssa.Call); ok {
+				if g := calleeFn(hc2.Common()); g != nil && isModFn(g) {
+					for _, x := range hc2.Call.Args {
+						if x == ssa.Value(healthy) {
+							fromSnap = true
+						}
+					}
+				}
+			}
+			if !fromSnap {
+				okArg = false
+			}
+		}
+		c.Check(okArg, "R1", "PickHost argument", pick.Pos(), "PickHost(hostSet.Healthy()) (or a list filtered from it)", "the balancer is not given the usable-host snapshot (it can select removed or unhealthy hosts)")
 		f, _ := loadedField(healthy.Call.Args[0])
 		c.Check(f != nil && f.Name() == "hostSet", "R1", "snapshot of the proc's own host set", healthy.Pos(), "p.hostSet.Healthy()", "the snapshot is not taken from the service's own host set")
 		// empty -> return before dial: the dial block is dominated by len(healthy) != 0
@@ -90,7 +153,13 @@ func checkC06(c *Ctx) {
 			}
 		}
 		c.Check(okEmpty, "R1", "no dial without a usable host", dial.Pos(), "pick and dial dominated by len(snapshot) != 0", "with no usable host the handler still picks/dials (nil host dereference or a connection to an unusable host)")
-		c.Check(resolveCell(dial.Call.Args[1]) == ssa.Value(pick), "R1", "dial target is the picked host", dial.Pos(), "dial(PickHost result)", "the handler dials a host other than the one the balancer returned")
+		okDial := true
+		for _, dl := range dials {
+			if !isPicked(dl.Call.Args[1]) {
+				okDial = false
+			}
+		}
+		c.Check(okDial, "R1", "dial target is the picked host", dial.Pos(), "dial(PickHost result)", "the handler dials a host other than the one the balancer returned")
 	}
 	c.Expect("R1", 4)
 
@@ -302,12 +371,94 @@ func checkC06(c *Ctx) {
 			c.Check(isLen, "R3", site+" modulo len(hosts)", rem.Pos(), "modulus is len(hosts)", "the round-robin modulus is not len(hosts)")
 			c.Check(!narrowed && !narrowY, "R3", site+" full width", rem.Pos(), "ticket and modulus keep the counter's width", "the ticket is truncated before the modulo: when the truncated value wraps, one host is picked twice in a row and another skipped (exact n*k fairness breaks)")
 		})
+		// R3 fallback: the balancer has an atomic counter but the ticket is computed in a helper (no local modulo): every
+		// value the index derives from must be the result of a read-modify-write on that counter
+		if recv := fn.Signature.Recv(); recv != nil && !hasLocalTicket(fn, hosts) {
+			if st, ok := deref(recv.Type()).Underlying().(*types.Struct); ok {
+				hasAtomic := false
+				for i := 0; i < st.NumFields(); i++ {
+					if typeIsAtomic(st.Field(i).Type()) {
+						hasAtomic = true
+					}
+				}
+				if hasAtomic {
+					names := map[string]bool{}
+					eachInstr(fn, func(_ *ssa.BasicBlock, _ int, in ssa.Instruction) {
+						ia, ok := in.(*ssa.IndexAddr)
+						if !ok || ia.X != ssa.Value(hosts) {
+							return
+						}
+						seen := map[ssa.Value]bool{}
+						var walk func(v ssa.Value, d int)
+						walk = func(v ssa.Value, d int) {
+							if v == nil || seen[v] || d < 0 {
+								return
+							}
+							seen[v] = true
+							switch x := v.(type) {
+							case *ssa.BinOp:
+								walk(x.X, d)
+								walk(x.Y, d)
+							case *ssa.Convert:
+								walk(x.X, d)
+							case *ssa.ChangeType:
+								walk(x.X, d)
+							case *ssa.Phi:
+								for _, e := range x.Edges {
+									walk(e, d)
+								}
+							case *ssa.Call:
+								g := calleeFn(x.Common())
+								if g == nil {
+									return
+								}
+								if len(x.Call.Args) > 0 {
+									if f, _ := loadedField(x.Call.Args[0]); f != nil && typeIsAtomic(f.Type()) {
+										names[g.Name()] = true
+										return
+									}
+									if f, _ := fieldAddr(x.Call.Args[0]); f != nil && typeIsAtomic(f.Type()) {
+										names[g.Name()] = true
+										return
+									}
+								}
+								if isModFn(g) && g.Blocks != nil {
+									eachInstr(g, func(_ *ssa.BasicBlock, _ int, y ssa.Instruction) {
+										if r, ok := y.(*ssa.Return); ok {
+											for _, rv := range r.Results {
+												walk(rv, d-1)
+											}
+										}
+									})
+								}
+							}
+						}
+						walk(ia.Index, 2)
+					})
+					bad := ""
+					for n := range names {
+						if n != "Inc" && n != "Add" && n != "Dec" && n != "Sub" {
+							bad = n
+						}
+					}
+					site := fnKey(fn) + " ticket"
+					switch {
+					case len(names) == 0:
+						c.Fail("R3", site+" from one atomic read-modify-write", fn.Pos(), "the round-robin index does not derive from the balancer's atomic counter")
+					case bad != "":
+						c.Fail("R3", site+" from one atomic read-modify-write", fn.Pos(), "the round-robin index is read with "+bad+"() and the counter advanced separately instead of one atomic read-modify-write: two overlapping picks draw the same ticket, one position of the cycle is skipped and n*k selections are no longer exactly k per host")
+					default:
+						c.OK("R3", site+" from one atomic read-modify-write", fn.Pos(), "index derives only from a read-modify-write result (through a helper)")
+					}
+				}
+			}
+		}
 		// R4 least connection
 		checkLeastConn(c, fn, hosts)
 	}
 	c.Check(nb >= 3, "R2", "balancer implementations", token.NoPos, fmt.Sprintf("%d implementations", nb), "expected three balancer implementations")
 	c.Expect("R2", 6)
-	c.Expect("R3", 3)
+	c.Expect("R3", 1)
 	c.Expect("R4", 3)
 
 	// ---------------- R5
@@ -373,7 +524,7 @@ func checkC06(c *Ctx) {
 						continue
 					}
 					// the receiver is the picked host
-					recvOK := canonical(call.Call.Args[0], a, cd.goIn) == ssa.Value(pick)
+					recvOK := isPicked(canonical(call.Call.Args[0], a, cd.goIn))
 					cb := selectCaseBlock(sel, k)
 					ncl := 0
 					if cb != nil {
@@ -446,6 +597,8 @@ func checkC06(c *Ctx) {
 	checkTierIdentity(c, "R8")
 	c.Rule("R9", "balancer input: every IncConnCount is released by DecConnCount on every path out of the function")
 	checkHostConnPairing(c, "R9")
+	c.Rule("R10", "the candidate list handed out by Healthy() is never written, sorted or spliced in place by a reader (shared with C15.R9)")
+	checkSnapshotImmutable(c, "R10")
 	// the snapshot given to the balancer is current only if every tier change rebuilds the cache
 	checkTierRebuild(c, "R1")
 
@@ -691,4 +844,35 @@ func checkHostConnPairing(c *Ctx, rule string) {
 	if n == 0 {
 		c.Unresolved(rule, "no caller of IncConnCount")
 	}
+}
+
+// hasLocalTicket: the function indexes the candidate list with a local `x % y` whose dividend is a call on an atomic field.
+func hasLocalTicket(fn *ssa.Function, hosts ssa.Value) bool {
+	found := false
+	eachInstr(fn, func(_ *ssa.BasicBlock, _ int, in ssa.Instruction) {
+		ia, ok := in.(*ssa.IndexAddr)
+		if !ok || ia.X != hosts {
+			return
+		}
+		rem, ok := stripNoopConv(ia.Index).(*ssa.BinOp)
+		if !ok || rem.Op != token.REM {
+			return
+		}
+		x := rem.X
+		for i := 0; i < 4; i++ {
+			if cv, ok := x.(*ssa.Convert); ok {
+				x = cv.X
+				continue
+			}
+			break
+		}
+		if call, ok := x.(*ssa.Call); ok && len(call.Call.Args) >= 1 {
+			if f, _ := loadedField(call.Call.Args[0]); f != nil && typeIsAtomic(f.Type()) {
+				found = true
+			} else if f, _ := fieldAddr(call.Call.Args[0]); f != nil && typeIsAtomic(f.Type()) {
+				found = true
+			}
+		}
+	})
+	return found
 }
